@@ -8,6 +8,7 @@ import (
 	"go/token"
 	"go/types"
 	"sort"
+	"strings"
 )
 
 func (vc *VC) execBlock(st *State, stmts []ast.Stmt) *State {
@@ -127,6 +128,9 @@ func (vc *VC) declLocal(st *State, id *ast.Ident, val Term) {
 	}
 	val = vc.convertTo(val, v.Type())
 	val = vc.bind(v.Name(), val)
+	if vc.freshResult[val.S] && vc.nonEscaping[v] {
+		vc.owned = append(vc.owned, val)
+	}
 	if vc.cellVars[v] {
 		ref := vc.newRef(st)
 		vc.storeRef(st, ref, val.Sort, val.S)
@@ -675,6 +679,19 @@ func (vc *VC) havocForLoop(st *State, body ast.Node, extra ...ast.Node) {
 		vc.typeInvariant(st, f)
 		st.vars[v] = f
 	}
+	// ghost call counters / last errors of callbacks change whenever the body calls them
+	var cbs []string
+	for k := range vc.cbVars {
+		cbs = append(cbs, k)
+	}
+	sort.Strings(cbs)
+	for _, k := range cbs {
+		v := vc.cbVars[k]
+		name := k[strings.Index(k, ":")+1:]
+		if _, ok := st.vars[v]; ok && vc.callsFuncValue(body, name) {
+			st.vars[v] = vc.fresh("cb", vc.U.sortOf(v.Type()))
+		}
+	}
 	// heaps: havoc exactly those the body can write, found by a dry run of the body from an
 	// all-heaps-havocked state (rolled back afterwards)
 	if vc.mayWriteHeap(body) {
@@ -923,6 +940,7 @@ func (vc *VC) havocAllHeaps(st *State) {
 		vc.nfresh++
 		n := fmt.Sprintf("%s!%d", smtName(k), vc.nfresh)
 		vc.consts = append(vc.consts, fmt.Sprintf("(declare-const %s %s)", n, sn))
+		vc.preserveOwned(st, k, sn, n)
 		st.heaps[k] = Term{n, nil}
 	}
 	// allocation counter only grows
@@ -989,22 +1007,31 @@ func (vc *VC) execFor(st *State, x *ast.ForStmt) *State {
 
 // loopHead: assert invariants on entry, havoc, assume invariants; returns the arbitrary-iteration state.
 func (vc *VC) loopHead(st *State, ls *LoopSpec, ord int, loop ast.Node, body ast.Node, post ast.Node) *State {
+	snap := &loopSnap{before: st.clone(), head: st}
+	vc.loopStack = append(vc.loopStack, snap)
 	for k, inv := range ls.Invariants {
 		t := vc.specIn(st, inv)
 		vc.assertNamed(st, fmt.Sprintf("inv-init[%d,%d]", ord, k), "inv-init", t.S, loop.Pos(), inv.Text)
 	}
 	head := st.clone()
 	vc.havocForLoop(head, body, post)
+	snap.head = head
 	for _, inv := range ls.Invariants {
 		t := vc.specIn(head, inv)
 		vc.assume(head, t.S)
 	}
+	snap.head = head.clone()
 	return head
 }
 
 func (vc *VC) loopBackEdge(body *State, ls *LoopSpec, ord int, loop ast.Node, variant0 string) {
+	defer func() { vc.loopStack = vc.loopStack[:len(vc.loopStack)-1] }()
 	if body.dead {
 		return
+	}
+	for k, stp := range ls.Steps {
+		t := vc.specIn(body, stp)
+		vc.assertNamed(body, fmt.Sprintf("step[%d,%d]", ord, k), "step", t.S, loop.Pos(), stp.Text)
 	}
 	for k, inv := range ls.Invariants {
 		t := vc.specIn(body, inv)
@@ -1073,8 +1100,15 @@ func (vc *VC) execRange(st *State, x *ast.RangeStmt) *State {
 		valVar = declare(x.Value, nil)
 	}
 
+	indexable := kind == KSlice || kind == KArr || kind == KInt || kind == KStr
+	if keyVar != nil && indexable && !vc.cellVars[keyVar] {
+		st.vars[keyVar] = Term{"0", vc.U.sortOf(keyVar.Type())}
+	}
 	// implicit invariant for indexable ranges: 0 <= $i <= n
 	head0 := st
+	snap := &loopSnap{before: head0.clone(), head: head0}
+	vc.loopStack = append(vc.loopStack, snap)
+	defer func() { vc.loopStack = vc.loopStack[:len(vc.loopStack)-1] }()
 	for k, inv := range ls.Invariants {
 		t := vc.specIn(head0, inv)
 		vc.assertNamed(head0, fmt.Sprintf("inv-init[%d,%d]", ord, k), "inv-init", t.S, x.Pos(), inv.Text)
@@ -1089,17 +1123,23 @@ func (vc *VC) execRange(st *State, x *ast.RangeStmt) *State {
 		vc.assume(head, "(<= 0 "+iv.S+")")
 	}
 	if keyVar != nil {
-		head.vars[keyVar] = vc.fresh(keyVar.Name(), vc.U.sortOf(keyVar.Type()))
-		vc.typeInvariant(head, head.vars[keyVar])
+		if indexable && !vc.cellVars[keyVar] {
+			head.vars[keyVar] = Term{iv.S, vc.U.sortOf(keyVar.Type())}
+		} else {
+			head.vars[keyVar] = vc.fresh(keyVar.Name(), vc.U.sortOf(keyVar.Type()))
+			vc.typeInvariant(head, head.vars[keyVar])
+		}
 	}
 	if valVar != nil {
 		head.vars[valVar] = vc.fresh(valVar.Name(), vc.U.sortOf(valVar.Type()))
 		vc.typeInvariant(head, head.vars[valVar])
 	}
+	snap.head = head
 	for _, inv := range ls.Invariants {
 		t := vc.specIn(head, inv)
 		vc.assume(head, t.S)
 	}
+	snap.head = head.clone()
 	var variant0 string
 	exit := head.clone()
 	body := head
@@ -1155,6 +1195,13 @@ func (vc *VC) execRange(st *State, x *ast.RangeStmt) *State {
 	if !body.dead {
 		cur := body.vars[idxVar]
 		body.vars[idxVar] = Term{"(+ " + cur.S + " 1)", sortInt}
+		if keyVar != nil && (kind == KSlice || kind == KArr || kind == KInt || kind == KStr) && !vc.cellVars[keyVar] {
+			body.vars[keyVar] = Term{body.vars[idxVar].S, vc.U.sortOf(keyVar.Type())}
+		}
+		for k, stp := range ls.Steps {
+			t := vc.specIn(body, stp)
+			vc.assertNamed(body, fmt.Sprintf("step[%d,%d]", ord, k), "step", t.S, x.Pos(), stp.Text)
+		}
 		for k, inv := range ls.Invariants {
 			t := vc.specIn(body, inv)
 			vc.assertNamed(body, fmt.Sprintf("inv-pres[%d,%d]", ord, k), "inv-pres", t.S, x.Pos(), inv.Text)
@@ -1167,4 +1214,45 @@ func (vc *VC) execRange(st *State, x *ast.RangeStmt) *State {
 		m.names = saved
 	}
 	return m
+}
+
+
+// preserveOwned: objects allocated by this unit that never escape keep their heap entries
+// across calls of unknown code (nobody else holds a reference to them).
+func (vc *VC) preserveOwned(st *State, heap, sortName, newName string) {
+	if len(vc.owned) == 0 || !strings.HasPrefix(sortName, "(Array ") {
+		return
+	}
+	rest := sortName[7:]
+	key := rest
+	if i := strings.IndexByte(rest, ' '); i >= 0 {
+		key = rest[:i]
+	}
+	old, ok := st.heaps[heap]
+	if !ok {
+		old, ok = vc.heap0[heap]
+	}
+	if !ok {
+		return
+	}
+	for _, o := range vc.owned {
+		if o.Sort.Name == key {
+			vc.facts = append(vc.facts, sEq("(select "+newName+" "+o.S+")", "(select "+old.S+" "+o.S+")"))
+		}
+	}
+}
+
+
+// callsFuncValue reports whether n contains a call through the function value written `name`.
+func (vc *VC) callsFuncValue(n ast.Node, name string) bool {
+	found := false
+	ast.Inspect(n, func(m ast.Node) bool {
+		if c, ok := m.(*ast.CallExpr); ok {
+			if exprString(ast.Unparen(c.Fun)) == name {
+				found = true
+			}
+		}
+		return !found
+	})
+	return found
 }
